@@ -203,6 +203,8 @@ def extra(tier, seed):
     out = [static_dispatch(), static_logit_tail(), static_calculator_returns()]
     from specs import c12c_static       # round 2 (agent c12c)
     out += [c12c_static.names_dispatch(), c12c_static.cnl_validity(), c12c_static.duplicate_rule()]
+    from specs import c12_raise_static   # faults are reported with an exception, never by `raise <string>`
+    out += c12_raise_static.raise_sites()
     out.append(run_native('C12:bounded:fault-planting', 'c12_faults.py', [tier, str(seed)],
                           bound='see the harness bound string: 56 hosts x wrappers x 10 fault kinds x 2 entry points, missing-data cases, data faults, nest faults', timeout=1500))
     return out
